@@ -13,6 +13,7 @@ import vf
 
 PARTS = ["Murmur3Partitioner", "OrderedPartitioner", "RandomPartitioner"]
 SPREADS = ["compact", "full", "edge", "zero"]
+FAULTS = ["", "local", "unknown-class", "bad-rf", "fetch-fail-ks", "fetch-remove"]
 POLS = [b + s_ + n for b in ("rr", "dc", "rack") for s_ in ("", "-shuffle") for n in ("", "-nonlocal")]
 DEV_WORKERS = int(os.environ.get("VERIF_TLC_WORKERS", "0")) or None   # None: all cores (the exhaustive generator pass)
 VAL_WORKERS = DEV_WORKERS or min(8, vf.NCPU)                             # vector validation passes
@@ -61,6 +62,8 @@ def exact_agreement(case, vec):
     for e in vec["look2"]:
         if e["hosts"] != exp[idx[e["t"]] - 1]:
             return False
+    if any(e["hosts"] for e in vec["look3"]):      # after a faulty update: nothing associated any more
+        return False
     return True
 
 
@@ -77,6 +80,8 @@ def key_of(v):
     if not mk and not lk:
         # built right; wrong in the map a token aware policy holds after routing queries
         k2 = set(v["map2kinds"]) | set(v["look2kinds"])
+        if not k2 and v["look3kinds"]:
+            return st + "-stale-replica-map-after-" + v["fault"]
         for k in ("duplicate-replica", "missing-replica", "foreign-replica", "primary-not-first", "size-bound", "foreign-token"):
             if k in k2:
                 return st + "-after-picks-" + ("wrong-set" if k in ("missing-replica", "foreign-replica") else k)
@@ -149,7 +154,7 @@ def replay(ctx):
         raise vf.Inconclusive("no vectors in %s" % ctx.replay)
     cases = [dict(id=i + 1, ring=v["ring"], dc=v["dc"], rack=v["rack"], strat=v["strat"], rfdc=v["rfdc"], rfn=v["rfn"],
                   tokens=v["tokens"], look=[[e["t"]] for e in v["look"]] or [[t] for t in v["tokens"]], form=v["form"],
-                  parts=[v["part"]], down=v.get("down", []), spread=v.get("spread", ""), pol=v.get("pol", "")) for i, v in enumerate(vecs)]
+                  parts=[v["part"]], down=v.get("down", []), spread=v.get("spread", ""), pol=v.get("pol", ""), fault=v.get("fault", "")) for i, v in enumerate(vecs)]
     cp, rp = os.path.join(ctx.tmp, "cases.ndjson"), os.path.join(ctx.tmp, "results.ndjson")
     vf.write_ndjson(cp, cases)
     binary = vf.build_gotest(ctx, ".", harness_dirs("c10"))
@@ -186,6 +191,9 @@ def run(ctx):
         # ... and, every fourth case, the map is additionally built by a real token aware policy (every
         # fallback / option combination in turn) and read again after queries were routed through it
         c["pol"] = POLS[(i // 4 + seed) % len(POLS)] if (i + seed) % 4 == 1 else ""
+        # ... followed by an update that cannot be carried out (ALTER KEYSPACE to an unsupported placement, failing
+        # keyspace metadata lookup at a schema event / while a node leaves)
+        c["fault"] = FAULTS[(i // 4 + i // 48 + seed) % len(FAULTS)] if c["pol"] else ""
     cp = os.path.join(ctx.tmp, "cases.ndjson")
     vf.write_ndjson(cp, [{k: v for k, v in c.items() if k != "exp"} for c in cases])
     ctx.log("generated %d cases (%d rings x layouts)" % (len(cases), nlayouts))
